@@ -59,6 +59,11 @@ func (c03) Gen(tier string, seed int64, emit func([]Ev)) {
 						v = []uint64{0, pcrLimit - 1, 299, 300, (1 << 32) * 300}[r.Intn(5)]
 					}
 					e["arg"] = W64(v)
+					if r.Intn(4) == 0 {
+						// re-stamp the clock with the value it currently decodes to (the bytes in the slot may be a
+						// non-canonical encoding of it: reserved bits cleared, extension of 300 or more)
+						e["same"] = true
+					}
 				case x < 11:
 					e["op"] = "SetSpliceCountdown"
 					e["arg"] = []int{0, 1, 127, 128, 255, r.Intn(256)}[r.Intn(6)]
@@ -161,6 +166,9 @@ func (c03) GenRows(rows []Ev, tier string, seed int64, emit func([]Ev)) {
 		for _, op := range []string{"SetPCR", "SetOPCR"} {
 			one(op, W64(uint64(r.Int63n(int64(pcrLimit)))), -9)
 			one(op, W64([]uint64{0, pcrLimit - 1, 299, 300, (1 << 32) * 300}[r.Intn(5)]), -9)
+		}
+		for _, op := range []string{"SetPCR", "SetOPCR"} {
+			emit([]Ev{{"op": op, "arg": W64(0), "same": true, "start": B(p[:])}})
 		}
 		one("SetSpliceCountdown", 0, -9)
 		one("SetSpliceCountdown", []int{1, 127, 128, 255}[r.Intn(4)], -9)
@@ -308,10 +316,26 @@ func (c03) Exec(h []Ev) []Ev {
 				err = af.SetHasTransportPrivateData(GBool(e["arg"]))
 			case "SetHasAdaptationFieldExtension":
 				err = af.SetHasAdaptationFieldExtension(GBool(e["arg"]))
-			case "SetPCR":
-				err = af.SetPCR(UW64(e["arg"]))
-			case "SetOPCR":
-				err = af.SetOPCR(UW64(e["arg"]))
+			case "SetPCR", "SetOPCR":
+				if same, _ := e["same"].(bool); same {
+					// steer the value by the current state (generation aid only; the recorded arg is what is validated)
+					var cur uint64
+					var gerr error
+					if op == "SetPCR" {
+						cur, gerr = af.PCR()
+					} else {
+						cur, gerr = af.OPCR()
+					}
+					if gerr == nil && cur < pcrLimit {
+						e["arg"] = W64(cur)
+					}
+					delete(e, "same")
+				}
+				if op == "SetPCR" {
+					err = af.SetPCR(UW64(e["arg"]))
+				} else {
+					err = af.SetOPCR(UW64(e["arg"]))
+				}
 			case "SetSpliceCountdown":
 				err = af.SetSpliceCountdown(byte(GI(e["arg"])))
 			case "SetTransportPrivateData", "SetAdaptationFieldExtension":
